@@ -412,7 +412,7 @@ Fixpoint nth_field (t : ttape) (fuel k ti en : nat) : outcome (option nat) :=
       end
   end.
 
-Definition tape_fuel (sh : shape) (t : ttape) : nat := 2 * length t + shape_size sh + 8.
+Definition tape_fuel (sh : shape) (t : ttape) : nat := 2 * length t + 2 * shape_size sh + 8.
 
 Definition deser_tape (decode : bytes -> cow) (parse_f64 : bytes -> outcome N) (fo : fops) (sh : shape) (t : ttape) : outcome dval :=
   de_root decode parse_f64 fo t (tape_fuel sh t) sh 0 (length t).
